@@ -214,15 +214,29 @@ DecEntriesBytes(field, cls, entries) ==
 (***************************************************************************)
 (* External data window and file destinations                              *)
 (***************************************************************************)
-ExtWindow(file, off, len) == SubSeq(file, off + 1, off + len)
+\* The data file of an external tensor is kept abstract:  padding ++ data ++ tail, where the padding is padlen bytes
+\* obtained by repeating the cycle padpat (so that a read that starts at a wrong position is seen), data are the
+\* tensor's bytes and tail the bytes of whatever follows in the file.
+AFile(padlen, data, tail) == [padlen |-> padlen, padpat |-> <<161, 162, 163, 164, 165, 166, 167>>, data |-> data, tail |-> tail]
+FileLen(f) == f.padlen + Len(f.data) + Len(f.tail)
+FileAt(f, i) ==                                  \* byte i (1-based) of the file
+  IF i <= f.padlen THEN f.padpat[((i - 1) % Len(f.padpat)) + 1]
+  ELSE IF i <= f.padlen + Len(f.data) THEN f.data[i - f.padlen]
+  ELSE f.tail[i - f.padlen - Len(f.data)]
+NoFile == AFile(0, <<>>, <<>>)
+
+\* len bytes of the file starting at byte offset off (0-based), as mmap / read / copy_file_range must deliver them
+ExtWindow(f, off, len) == [j \in 1..len |-> FileAt(f, off + j)]
 
 Rpt(b, k) == [i \in 1..k |-> b]
-OffKinds == {"zero", "one", "eof", "whole"}
-\* the data file of an external tensor: pad ++ data ++ tail
-ExtPad(offk)  == CASE offk = "zero" -> <<>> [] offk = "one" -> <<165>> [] offk = "eof" -> <<165, 166>> [] offk = "whole" -> <<>>
-ExtTail(offk) == CASE offk = "zero" -> <<171, 205, 239>> [] offk = "one" -> <<171, 205, 239>> [] offk = "eof" -> <<>> [] offk = "whole" -> <<>>
-ExtFile(offk, data) == ExtPad(offk) \o data \o ExtTail(offk)
-ExtOff(offk) == Len(ExtPad(offk))
+\* offset kinds: at 0 / 1 / 2 with or without following bytes, and offsets around the page and mmap allocation
+\* granularity boundaries (4096) and far into a padded file
+OffKinds == {"zero", "one", "eof", "whole", "p4095", "p4096", "p4097", "p8192", "p70001"}
+ExtOff(offk) == CASE offk = "zero" -> 0 [] offk = "one" -> 1 [] offk = "eof" -> 2 [] offk = "whole" -> 0
+                  [] offk = "p4095" -> 4095 [] offk = "p4096" -> 4096 [] offk = "p4097" -> 4097
+                  [] offk = "p8192" -> 8192 [] offk = "p70001" -> 70001
+ExtTail(offk) == IF offk \in {"eof", "whole", "p8192"} THEN <<>> ELSE <<171, 205, 239>>
+ExtFile(offk, data) == AFile(ExtOff(offk), data, ExtTail(offk))
 
 \* tofile(dst): the bytes land at pos .. pos + len, everything else is kept, the position advances
 ToFile(dst, bytes) ==
@@ -244,15 +258,23 @@ DestInit(dk) ==
 (***************************************************************************)
 (* Representations                                                         *)
 (***************************************************************************)
-Rep(kind, flav, field, offk, lenGiven, inner, cache) ==
-  [kind |-> kind, flav |-> flav, field |-> field, offk |-> offk, lenGiven |-> lenGiven, inner |-> inner, cache |-> cache]
+\* view (array-backed and adapter representations): how the tensor's elements sit in the buffer the array / framework
+\* tensor refers to:  "own"     - the buffer holds exactly the elements;
+\*                    "win"     - a contiguous window starting 3 elements into a larger buffer (w[3:3+n]);
+\*                    "chunk"   - the second of two equal pieces of a buffer of 2n elements (torch.chunk / np.split);
+\*                    "strided" - every second element of a buffer, starting at element 1 (must be made contiguous)
+Rep(kind, flav, field, offk, lenGiven, inner, cache, view) ==
+  [kind |-> kind, flav |-> flav, field |-> field, offk |-> offk, lenGiven |-> lenGiven, inner |-> inner, cache |-> cache,
+   view |-> view]
 
-RArray(flav)      == Rep("array", flav, "-", "-", FALSE, "-", FALSE)
-RPacked           == Rep("packed", "-", "-", "-", FALSE, "-", FALSE)
-RProto(field)     == Rep("proto", "-", field, "-", FALSE, "-", FALSE)
-RExt(offk, lg)    == Rep("external", "-", "-", offk, lg, "-", FALSE)
-RLazy(inner, c)   == Rep("lazy", "-", "-", "-", FALSE, inner, c)
-RTorch            == Rep("torch", "-", "-", "-", FALSE, "-", FALSE)
+RArrayV(flav, v)  == Rep("array", flav, "-", "-", FALSE, "-", FALSE, v)
+RArray(flav)      == RArrayV(flav, "own")
+RPacked           == Rep("packed", "-", "-", "-", FALSE, "-", FALSE, "-")
+RProto(field)     == Rep("proto", "-", field, "-", FALSE, "-", FALSE, "-")
+RExt(offk, lg)    == Rep("external", "-", "-", offk, lg, "-", FALSE, "-")
+RLazy(inner, c)   == Rep("lazy", "-", "-", "-", FALSE, inner, c, "-")
+RTorchV(v)        == Rep("torch", "-", "-", "-", FALSE, "-", FALSE, v)
+RTorch            == RTorchV("own")
 
 \* element types that numpy itself does not have: the library also accepts their bit patterns in an unsigned container
 NonNative == {"BFLOAT16", "FLOAT8E4M3FN", "FLOAT8E4M3FNUZ", "FLOAT8E5M2", "FLOAT8E5M2FNUZ", "FLOAT8E8M0",
@@ -262,12 +284,16 @@ TorchOK == {"BFLOAT16", "BOOL", "COMPLEX128", "COMPLEX64", "FLOAT16", "FLOAT", "
             "FLOAT8E4M3FNUZ", "FLOAT8E5M2", "FLOAT8E5M2FNUZ", "INT16", "INT32", "INT64", "INT8", "UINT8",
             "UINT16", "UINT32", "UINT64", "FLOAT8E8M0", "INT2", "UINT2"}
 
+Views == {"own", "win", "chunk", "strided"}
+
 \* what a lazy tensor wraps
 InnerRep(inner, cls) ==
   CASE inner = "array"    -> RArray("native")
     [] inner = "packed"   -> RPacked
     [] inner = "proto"    -> RProto(IF cls = "string" THEN "string_data" ELSE "raw_data")
     [] inner = "external" -> RExt("one", TRUE)
+    [] inner = "torchwin" -> RTorchV("win")
+    [] inner = "extpage"  -> RExt("p4097", FALSE)
 
 Base(rep, cls) == IF rep.kind = "lazy" THEN InnerRep(rep.inner, cls) ELSE rep
 
@@ -284,9 +310,11 @@ ApplicableDef(rep, cls) == {d \in DTypesOf(cls) : RepOK(rep, d)}
 
 AllReps ==
   {RArray(f) : f \in {"native", "bits", "ctor", "sbits", "list"}} \cup {RPacked, RTorch}
+  \cup {RArrayV(f, v) : f \in {"native", "bits"}, v \in Views \ {"own"}} \cup {RTorchV(v) : v \in Views \ {"own"}}
   \cup {RProto(f) : f \in Fields}
   \cup {RExt(o, lg) : o \in OffKinds, lg \in BOOLEAN}
-  \cup {RLazy("array", FALSE), RLazy("proto", TRUE), RLazy("external", FALSE), RLazy("packed", TRUE)}
+  \cup {RLazy("array", FALSE), RLazy("proto", TRUE), RLazy("external", FALSE), RLazy("packed", TRUE),
+        RLazy("torchwin", FALSE), RLazy("extpage", TRUE)}
 
 \* (constant tables, evaluated once by TLC; {x : x \in S} makes TLC enumerate the filtered set eagerly)
 ApplicableT == [r \in AllReps, c \in Classes |-> {d : d \in ApplicableDef(r, c)}]
@@ -297,7 +325,26 @@ RepsOf(cls) == RepsOfT[cls]
 (***************************************************************************)
 (* What a representation stores, and what the library must derive from it  *)
 (***************************************************************************)
-NoStore == [codes |-> <<>>, bytes |-> <<>>, ints |-> <<>>, entries |-> <<>>, file |-> <<>>, off |-> 0, len |-> 0]
+NoStore == [codes |-> <<>>, start |-> 0, step |-> 1, bytes |-> <<>>, ints |-> <<>>, entries |-> <<>>,
+            file |-> NoFile, off |-> 0, len |-> 0]
+
+\* all-zero / all-ones element pattern of a class
+ZeroPat(cls) == CASE SubByte(cls) -> 0 [] cls = "string" -> <<>> [] OTHER -> Rpt(0, EBytes(cls))
+OnesPat(cls) == CASE SubByte(cls) -> 2 ^ Bits(cls) - 1 [] cls = "bool" -> <<1>> [] cls = "string" -> <<255, 254>>
+                  [] OTHER -> Rpt(255, EBytes(cls))
+\* the elements of the larger buffer that do not belong to the tensor: a legal pattern that differs from the tensor's
+\* first element (so that bytes taken from the start of the buffer are seen)
+Junk(t) == IF t.n > 0 /\ t.codes[1] = ZeroPat(t.cls) THEN OnesPat(t.cls) ELSE ZeroPat(t.cls)
+
+\* the buffer behind a view, the element index where the tensor starts (0-based) and the element step
+ViewBase(v, t) ==
+  LET j == Junk(t) n == t.n
+  IN CASE v = "win"     -> [codes |-> Rpt(j, 3) \o t.codes \o Rpt(j, 2), start |-> 3, step |-> 1]
+       [] v = "chunk"   -> [codes |-> Rpt(j, n) \o t.codes, start |-> n, step |-> 1]
+       [] v = "strided" -> [codes |-> [i \in 1..(2 * n + 1) |-> IF i % 2 = 0 THEN t.codes[i \div 2] ELSE j], start |-> 1, step |-> 2]
+       [] OTHER         -> [codes |-> t.codes, start |-> 0, step |-> 1]
+\* the n elements a view refers to
+Window(codes, start, step, n) == [i \in 1..n |-> codes[start + (i - 1) * step + 1]]
 
 \* array flavours: "native" = numpy / ml_dtypes element type; "ctor" = the same through ir.tensor(); "bits" = bit patterns in
 \* an unsigned container (uint8 / uint16); "sbits" = signed sub-byte values sign-extended in an int8 container (the
@@ -305,7 +352,8 @@ NoStore == [codes |-> <<>>, bytes |-> <<>>, ints |-> <<>>, entries |-> <<>>, fil
 SExt8(bits, c) == IF c >= 2 ^ (bits - 1) THEN c + 256 - 2 ^ bits ELSE c
 Stored0(r, t, d) ==
   CASE r.kind = "array" /\ r.flav = "sbits" -> [NoStore EXCEPT !.codes = [i \in 1..t.n |-> SExt8(Bits(t.cls), t.codes[i])]]
-    [] r.kind \in {"array", "torch"} -> [NoStore EXCEPT !.codes = t.codes]
+    [] r.kind \in {"array", "torch"} ->
+         LET b == ViewBase(r.view, t) IN [NoStore EXCEPT !.codes = b.codes, !.start = b.start, !.step = b.step]
     [] r.kind = "packed" -> [NoStore EXCEPT !.bytes = Pack(t.cls, t.codes)]
     [] r.kind = "proto" ->
          (CASE r.field = "raw_data"    -> [NoStore EXCEPT !.bytes = Pack(t.cls, t.codes)]
@@ -321,7 +369,8 @@ Stored(rep, t, d) == Stored0(Base(rep, t.cls), t, d)
 \* bytes returned by tobytes() / written by tofile(); only for HasBytes classes
 Low(cls, codes) == IF SubByte(cls) THEN [i \in 1..Len(codes) |-> codes[i] % (2 ^ Bits(cls))] ELSE codes
 RBytes0(r, t, s) ==
-  CASE r.kind \in {"array", "torch"} -> Pack(t.cls, Low(t.cls, s.codes))           \* masks and packs on demand
+  CASE r.kind \in {"array", "torch"} ->                                            \* window, mask, pack on demand
+         Pack(t.cls, Low(t.cls, Window(s.codes, s.start, s.step, t.n)))
     [] r.kind = "packed" -> s.bytes
     [] r.kind = "proto" ->
          (CASE r.field = "raw_data"   -> s.bytes
@@ -333,7 +382,7 @@ RBytes(rep, t, d) == RBytes0(Base(rep, t.cls), t, Stored(rep, t, d))
 
 \* element patterns returned by numpy()
 RValues0(r, t, s) ==
-  CASE r.kind \in {"array", "torch"} -> Low(t.cls, s.codes)
+  CASE r.kind \in {"array", "torch"} -> Low(t.cls, Window(s.codes, s.start, s.step, t.n))
     [] r.kind = "proto" /\ r.field = "string_data" -> s.entries
     [] OTHER -> Unpack(t.cls, RBytes0(r, t, s), t.n)                                 \* unpacks on demand
 
